@@ -62,7 +62,8 @@ EXTS = {
 def _files_for_hash(repo, name):
     so, srcs, glue, incs, _cxx, _fl, _df, _pyx = EXTS[name]
     files = list(srcs) + [glue]
-    for inc in incs:
+    # headers next to the sources (e.g. rmsd/src/theobald_rmsd_sse.h) are #included too
+    for inc in list(incs) + sorted({os.path.dirname(x) for x in srcs}):
         d = os.path.join(repo, inc)
         if os.path.isdir(d):
             for fn in sorted(os.listdir(d)):
